@@ -1,5 +1,5 @@
 (* C08: an unconditional #include of a file that holds only top-level tables (defaults, atom types, type tables, defines,
-   nested includes, conditionals -- no molecule types, no [ molecules ]) is read exactly as if its lines stood in place of
+   nested includes, conditionals, [ system ] / [ molecules ] lists -- no molecule types) is read exactly as if its lines stood in place of
    the #include line: the fresh director the implementation starts for the file and the including director running over
    the same lines go through states that differ in the current-section register only, and the register is re-synchronised
    by the next section header.  (What "textually inlining" means for the model of TOPDirector, model/TopPre.v.) *)
@@ -9,12 +9,12 @@ Import ListNotations.
 Open Scope string_scope.
 
 Definition set_sec (s : dstate) (sec : list string) : dstate :=
-  {| d_sec := sec; d_meta := d_meta s; d_itp := d_itp s; d_itps := d_itps s; d_mols := d_mols s; d_sh := d_sh s |}.
+  {| d_sec := sec; d_meta := d_meta s; d_itp := d_itp s; d_itps := d_itps s; d_sh := d_sh s |}.
 
 Definition rmap {A B} (f : A -> B) (r : result A) : result B := match r with Ok a => Ok (f a) | Err e => Err e end.
 
-(* no molecule type was begun and no [ molecules ] entry read *)
-Definition tbl (s : dstate) : Prop := d_itp s = None /\ d_itps s = [] /\ d_mols s = [].
+(* no molecule type was begun *)
+Definition tbl (s : dstate) : Prop := d_itp s = None /\ d_itps s = [].
 
 Lemma set_sec_id s : set_sec s (d_sec s) = s.
 Proof. destruct s; reflexivity. Qed.
@@ -30,7 +30,7 @@ Section Inline.
 
   (* a top-level section that keeps no molecule state *)
   Definition plain_name (h : string) : bool :=
-    mem_sec [h] known && negb (String.eqb h "moleculetype") && negb (String.eqb h "molecules").
+    mem_sec [h] known && negb (String.eqb h "moleculetype").
   Definition plain_sec (sec : list string) : bool :=
     match sec with [] => true | [x] => plain_name x | _ => false end.
   Definition plain_hdr (line : string) : bool :=
@@ -99,7 +99,7 @@ Section Inline.
     (starts "#" line = true \/ starts "*" line = true) -> tbl s ->
     do_line known fs rd cwd s line = Ok t -> tbl t /\ d_sec t = d_sec s.
   Proof.
-    intros H (H1 & H2 & H3). unfold do_line.
+    intros H (H1 & H2). unfold do_line.
     assert (Hn : itp_nonempty s = false) by (unfold itp_nonempty; rewrite H1; reflexivity).
     rewrite Hn.
     destruct (starts "#" line) eqn:Eh.
@@ -134,22 +134,22 @@ Section Inline.
     plain_hdr line = true ->
     do_line known fs rd cwd (set_sec s sec) line = Ok (set_sec s [section_name line]).
   Proof.
-    intros (H1 & H2 & H3) Hsec Hh Hst Hbr Hp. unfold plain_hdr in Hp. apply andb_prop in Hp. destruct Hp as [Hl Hn].
+    intros (H1 & H2) Hsec Hh Hst Hbr Hp. unfold plain_hdr in Hp. apply andb_prop in Hp. destruct Hp as [Hl Hn].
     unfold do_line. rewrite Hh, Hst, Hbr, Hl. f_equal. unfold do_header.
     change (d_sec (set_sec s sec)) with sec. rewrite (settle_plain sec _ Hsec Hn).
     assert (Hm : slist_eqb [section_name line] ["moleculetype"] = false).
     { cbn [slist_eqb]. rewrite (plain_name_not_moltype _ Hn). reflexivity. }
-    rewrite Hm. unfold set_sec. cbn [d_itp d_meta d_itps d_mols d_sh]. rewrite H1. reflexivity.
+    rewrite Hm. unfold set_sec. cbn [d_itp d_meta d_itps d_sh]. rewrite H1. reflexivity.
   Qed.
 
   (* ---- a content line of a plain section leaves register and molecule state alone ---- *)
   Lemma do_content_plain s line x :
-    d_sec s = [x] -> String.eqb x "moleculetype" = false -> String.eqb x "molecules" = false ->
+    d_sec s = [x] -> String.eqb x "moleculetype" = false ->
     do_content known s line = Err ErrIO \/ do_content known s line = Ok s \/ exists sh, do_content known s line = Ok (with_sh s sh).
   Proof.
-    intros Es H1 H2. unfold do_content. rewrite Es. destruct (negb (mem_sec [x] known)); [left; reflexivity|].
-    revert H1 H2. generalize (tokens line). intros toks.
-    scrut; intros H1 H2; try discriminate;
+    intros Es H1. unfold do_content. rewrite Es. destruct (negb (mem_sec [x] known)); [left; reflexivity|].
+    revert H1. generalize (tokens line). intros toks.
+    scrut; intros H1; try discriminate;
       repeat match goal with |- context [if ?b then _ else _] => destruct b end;
       first [left; reflexivity | right; left; reflexivity | right; right; eexists; reflexivity].
   Qed.
